@@ -90,7 +90,8 @@ class C04(Prop):
         "no longer than the canonical one, every maximal execution ends with every step terminated and exactly one "
         "TerminationToken, last, on every output port (Net_terminates). The contract is proved for the modelled "
         "Transformer/ConditionalStep rounds (_get_inputs, _group_by_tag, _reduce_statuses, _get_status, terminate); "
-        "CombinatorStep/GatherStep/LoopCombinatorStep/ExecuteStep are only assumed to honour it. FAILED is absorbing "
+        "GatherStep's termination for every arrival list is proved from the C01 model (C04_contract_gather); "
+        "CombinatorStep/LoopCombinatorStep/ExecuteStep/Schedule/Transfer are only assumed to terminate. FAILED is absorbing "
         "through _reduce_statuses/_get_status when no CANCELLED is present. The executor's closing logic is a 2-field "
         "state machine: after _cancel or close() no step is left unterminated and a FAILED/CANCELLED status makes run() "
         "raise (this holds for the repaired _cancel; the pre-fix behaviour is kept as C04_prefix_cancel_leaves_steps_refuted). "
@@ -107,7 +108,9 @@ class C04(Prop):
             "failing tag, optional held step (a long job in another branch), optional extra suspension points, 8% with one "
             "sink port left out of the workflow outputs, each run "
             "under its own seeded permutation of the asyncio ready queue; plus scatter->transform->gather and "
-            "scatter x scatter -> dot/cartesian -> transform graphs (oracle only); reduce/get_status: random status "
+            "scatter x scatter -> dot/cartesian -> transform graphs, and Deploy/Schedule/Execute pipelines on the local "
+            "deployment whose ExecuteStep runs one job per scattered element concurrently, one of them failing while its "
+            "siblings are held (all oracle only); reduce/get_status: random status "
             "lists. Non-trivial = a net with >=2 steps or a failure; distinct = distinct canonical JSON (schedule seed "
             "included).")
     TRUSTED = ("model: Net/Model.v (round abstraction of _get_inputs-based steps; Port = token_list + cursor; executor "
@@ -128,11 +131,21 @@ class C04(Prop):
             cases.append(netlib.gen_tg_net(rng, big=(tier != "quick"), drop_sink_p=0.08))
         for _ in range(n_sg):
             cases.append(netlib.gen_sg_net(rng))
+        for _ in range({"quick": 30, "thorough": 150, "extended": 100}[tier]):
+            cases.append(netlib.gen_exec_net(rng))
         for _ in range(n_red):
             vals = [rng.choice([3, 4, 4, 4, 3, 9, 5, 6, 0, 1, 2, 7, 8, 17, 30]) for _ in range(rng.randrange(0, 6))]
             if rng.random() < 0.5:
                 vals = [v for v in vals if v not in (5, 6)]
             cases.append({"f": "reduce", "vals": vals})
+        # every ordered pair of statuses, and the triples around FAILED / CANCELLED / RECOVERED / SKIPPED
+        for a in range(10):
+            for b in range(10):
+                cases.append({"f": "reduce", "vals": [a, b]})
+        for a in (3, 4, 5, 6, 9):
+            for b in (3, 4, 5, 6, 9):
+                for d in (3, 5, 6, 9):
+                    cases.append({"f": "reduce", "vals": [a, b, d]})
         for s in range(10):
             for e in (False, True):
                 cases.append({"f": "get_status", "s": s, "empty": e})
